@@ -57,3 +57,25 @@ Proof.
   intros H. unfold dr. rewrite skipn_app. rewrite lenN_length in H.
   replace (N.to_nat n - length a)%nat with 0%nat by lia. reflexivity.
 Qed.
+
+(* x ++ r = a ++ i with r no longer than i: r is a suffix of i and x = a ++ the rest of i *)
+Lemma app_suffix_split (x r a i : bytes) :
+  x ++ r = a ++ i -> lenN r <= lenN i ->
+  r = dr (lenN i - lenN r) i /\ x = a ++ tk (lenN i - lenN r) i.
+Proof.
+  intros E Hl.
+  assert (Hlen : lenN x = lenN a + (lenN i - lenN r)).
+  { apply (f_equal lenN) in E. rewrite !lenN_app in E. lia. }
+  assert (E2 : x ++ r = (a ++ tk (lenN i - lenN r) i) ++ dr (lenN i - lenN r) i).
+  { rewrite <- app_assoc, tk_dr. exact E. }
+  assert (Hlx : length x = length (a ++ tk (lenN i - lenN r) i)).
+  { apply Nat2N.inj. rewrite <- !lenN_length, lenN_app, len_tk. lia. }
+  pose proof (app_inj_tail_length := fun A => @app_inv_head A).
+  clear app_inj_tail_length.
+  assert (Hx : x = a ++ tk (lenN i - lenN r) i).
+  { apply (f_equal (firstn (length x))) in E2. rewrite firstn_app, Nat.sub_diag, firstn_all in E2. cbn in E2.
+    rewrite app_nil_r in E2. rewrite Hlx in E2 at 1. rewrite firstn_app, Nat.sub_diag, firstn_all in E2. cbn in E2.
+    rewrite app_nil_r in E2. exact E2. }
+  split; [|exact Hx].
+  rewrite Hx in E2. apply app_inv_head in E2. exact E2.
+Qed.
